@@ -1,5 +1,7 @@
 (* C12 driver.  One request per line:
-     run R:<l=mode,..|-> <event> <event> ...
+     run R:<l=mode,..|-> T:<l=mode/+l'/-l'..,..|-> <event> <event> ...
+   T        what listener l does to the registry from inside its callback when its mode fires:
+            +l' = dispatcher_connect(listener l'), -l' = stop function of l' 
    events   S:<ids>:<script>  U:<ids>:<script>  A:<l>  D:<l>  CU:<script>  CD  E:e | E:n | E:b[/aid.iid.val]*
    ids      aid.iid,aid.iid,.. | -
    script   - | aid=o ; aid=d ; aid=x ; aid=s[/aid.iid.status]*     (entries joined by ';')
@@ -44,6 +46,22 @@ let raises_of t =
     | Some 2 -> e = []
     | Some 3 -> e <> []
     | _ -> false
+let fires m (e : ((BinNums.coq_N * BinNums.coq_N) * BinNums.coq_Z) list) =
+  match m with 1 -> true | 2 -> e = [] | 3 -> e <> [] | _ -> false
+let acts_of t =
+  let tbl = match split ':' t with
+    | ["T"; "-"] | ["T"; ""] -> []
+    | ["T"; l] -> Stdlib.List.map (fun e -> match split '=' e with
+        | [a; r] -> (match split '/' r with
+            | m :: acts -> (int_of_string a, (int_of_string m, Stdlib.List.map (fun x ->
+                  (x.[0] = '+', n_of_int (int_of_string (Stdlib.String.sub x 1 (Stdlib.String.length x - 1))))) acts))
+            | _ -> failwith "acts")
+        | _ -> failwith "acts") (split ',' l)
+    | _ -> failwith "acts table" in
+  fun (l : BinNums.coq_N) e ->
+    match Stdlib.List.assoc_opt (int_of_n l) tbl with
+    | Some (m, a) when fires m e -> a
+    | _ -> []
 let s_cid (a, i) = Printf.sprintf "%d.%d" (int_of_n a) (int_of_n i)
 let s_ids l = if l = [] then "-" else Stdlib.String.concat "," (Stdlib.List.map s_cid l)
 let s_row ((a, i), v) = Printf.sprintf "%d.%d.%d" (int_of_n a) (int_of_n i) (int_of_z v)
@@ -63,13 +81,14 @@ let s_state s =
     (if s.Subs.lst = [] then "-" else Stdlib.String.concat "," (Stdlib.List.map (fun l -> string_of_int (int_of_n l)) s.Subs.lst))
     (if s.Subs.sup then 1 else 0) (if s.Subs.conn then 1 else 0)
 let handle = function
-  | "run" :: r :: evs ->
+  | "run" :: r :: t :: evs ->
       let raises = raises_of r in
+      let acts = acts_of t in
       let events = Stdlib.List.map event_of evs in
       (* cross-check: folding [step] here must agree with the model's own [trace_from] *)
-      let (steps_ref, s_ref) = Subs.trace_from raises Subs.init events in
+      let (steps_ref, s_ref) = Subs.trace_from raises acts Subs.init events in
       let (acc, s) = Stdlib.List.fold_left (fun (acc, s) e ->
-          let (s', o) = Subs.step raises s e in
+          let (s', o) = Subs.step raises acts s e in
           ((s_step o ^ " @ " ^ s_state s') :: acc, s')) ([], Subs.init) events in
       if s <> s_ref || Stdlib.List.length steps_ref <> Stdlib.List.length acc then "driver-inconsistent"
       else Stdlib.String.concat " | " (Stdlib.List.rev acc)
